@@ -63,6 +63,15 @@ let of_list f l = L (List.map f l)
 let of_opt f = function None -> A "none" | Some x -> L [A "some"; f x]
 let of_pair f g (a, b) = L [f a; g b]
 
+let sort_uniq_nat (l : nat list) : sx =
+  of_list of_int (List.sort_uniq compare (List.map int_of_nat l))
+let of_gtask g = L [of_opt of_nat g.gt_input; of_opt sort_uniq_nat g.gt_filter; of_nat g.gt_stage;
+                    of_nat g.gt_k; of_nat g.gt_np; of_nat g.gt_nfinal]
+let of_stage sl = L [of_list (of_list (of_pair of_nat of_nat)) sl.sl_outs; of_list of_nat sl.sl_parts;
+                     of_list (of_pair of_nat of_gtask) sl.sl_groups]
+let of_regroup = function NoRegroup -> A "noregroup"
+  | Regroup (a, b, gets) -> L [A "regroup"; of_nat a; of_nat b; of_list (of_pair of_nat of_nat) gets]
+let of_shuffle l = L [of_list of_stage l.sh_stages; of_regroup l.sh_regroup]
 (*DISPATCH-BEGIN*)
 let dispatch (fn : string) (args : sx list) : sx =
   match fn, args with
@@ -81,6 +90,11 @@ let dispatch (fn : string) (args : sx list) : sx =
   | "more_layer", [ns] ->
       of_list (function MAlias i -> L [A "alias"; of_nat i] | MPiece (i, jj) -> L [A "piece"; of_nat i; of_nat jj])
         (more_layer (get_list get_nat ns))
+  | "task_or_simple", [n_in; n_out; mb; k; stages; sel; filtered] ->
+      of_shuffle (task_or_simple (get_nat n_in) (get_nat n_out) (get_nat mb) (get_nat k) (get_nat stages)
+                    (get_list get_nat sel) (get_bool filtered))
+  | "simple_layer", [n_in; n_out; sel; filtered] ->
+      of_shuffle (simple_layer (get_nat n_in) (get_nat n_out) (get_list get_nat sel) (get_bool filtered))
   | _ -> failwith ("unknown request " ^ fn)
 (*DISPATCH-END*)
 
